@@ -21,6 +21,7 @@ import (
 	"sync"
 	"sync/atomic"
 
+	"github.com/alibaba/sentinel-golang/core/hotspot/cache"
 	"github.com/alibaba/sentinel-golang/logging"
 	"github.com/alibaba/sentinel-golang/util"
 	"github.com/pkg/errors"
@@ -464,8 +465,7 @@ func buildResourceTrafficShapingController(res string, resRules []*Rule, oldResT
 		var tc TrafficShapingController
 		if reuseStatIdx >= 0 {
 			// generate new traffic shaping controller with reusable statistic metric.
-			tc = generator(rule, oldResTcs[reuseStatIdx].BoundMetric())
-			carryOverTokens(oldResTcs[reuseStatIdx].BoundRule(), rule, oldResTcs[reuseStatIdx].BoundMetric())
+			tc = generator(rule, metricForBudgetOf(oldResTcs[reuseStatIdx].BoundRule(), rule, oldResTcs[reuseStatIdx].BoundMetric()))
 			// remove the reused traffic shaping controller old res tcs
 			oldResTcs = append(oldResTcs[:reuseStatIdx], oldResTcs[reuseStatIdx+1:]...)
 		} else {
@@ -481,18 +481,21 @@ func buildResourceTrafficShapingController(res string, resRules []*Rule, oldResT
 	return newTcsOfRes
 }
 
-// carryOverTokens adjusts the token counters of a QPS / Reject rule whose statistic is taken over by
-// a modified rule. A counter holds what is LEFT of a value's budget (threshold or specific item,
-// plus burst); the budget belongs to the rule. Without the adjustment the budget left under the
-// replaced rule went on deciding until the window had passed: after lowering a threshold from 100
-// to 1 the value could still spend its 99, after raising it from 1 to 100 it stayed exhausted.
-// What was consumed stays consumed: left' = left + (budget' - budget), within [0, budget'].
-func carryOverTokens(oldRule, newRule *Rule, metric *ParamsMetric) {
-	if oldRule == nil || newRule == nil || metric == nil || metric.RuleTokenCounter == nil {
-		return
+// metricForBudgetOf returns the statistic a modified QPS / Reject rule takes over from its predecessor.
+// A token counter holds what is LEFT of a value's budget (threshold or specific item, plus burst); the
+// budget belongs to the rule. Taken over as it is, the budget left under the replaced rule went on
+// deciding until the window had passed: after lowering a threshold from 100 to 1 the value could still
+// spend its 99, after raising it from 1 to 100 it stayed exhausted. What was consumed stays consumed:
+// left' = left + (budget' - budget), within [0, budget'].
+// The adjusted counters are COPIES: the old controllers are still published while the new ones are
+// being built, and rewriting the counters they read would let the old rule list decide on the new
+// rule's budget. When no budget changes the metric itself is handed on.
+func metricForBudgetOf(oldRule, newRule *Rule, metric *ParamsMetric) *ParamsMetric {
+	if oldRule == nil || newRule == nil || metric == nil || metric.RuleTokenCounter == nil || metric.RuleTimeCounter == nil {
+		return metric
 	}
 	if newRule.MetricType != QPS || newRule.ControlBehavior != Reject {
-		return
+		return metric
 	}
 	budget := func(r *Rule, key interface{}) int64 {
 		t := r.Threshold
@@ -507,31 +510,68 @@ func carryOverTokens(oldRule, newRule *Rule, metric *ParamsMetric) {
 		}
 		return t + r.BurstCount
 	}
-	// (oldest first, so that looking the counters up leaves their order of use as it was)
-	for _, key := range metric.RuleTokenCounter.Keys() {
-		was, is := budget(oldRule, key), budget(newRule, key)
-		if was == is {
-			continue
-		}
-		left, ok := metric.RuleTokenCounter.Get(key)
-		if !ok || left == nil {
-			continue
-		}
-		for {
-			old := atomic.LoadInt64(left)
-			consumed := was - old
-			if consumed < 0 {
-				consumed = 0
-			}
-			now := is - consumed
-			if now < 0 {
-				now = 0
-			}
-			if atomic.CompareAndSwapInt64(left, old, now) {
-				break
-			}
+	tokenKeys := metric.RuleTokenCounter.Keys()
+	changed := false
+	for _, key := range tokenKeys {
+		if budget(oldRule, key) != budget(newRule, key) {
+			changed = true
+			break
 		}
 	}
+	if !changed {
+		return metric
+	}
+	size := metric.RuleTokenCounter.Len()
+	if n := metric.RuleTimeCounter.Len(); n > size {
+		size = n
+	}
+	if c := cacheSizeOf(newRule); c > size {
+		size = c
+	}
+	copied := &ParamsMetric{
+		RuleTimeCounter:  cache.NewLRUCacheMap(size),
+		RuleTokenCounter: cache.NewLRUCacheMap(size),
+	}
+	// oldest first, so that the copies evict in the order the originals would have
+	for _, key := range metric.RuleTimeCounter.Keys() {
+		if p, ok := metric.RuleTimeCounter.Get(key); ok && p != nil {
+			v := atomic.LoadInt64(p)
+			copied.RuleTimeCounter.Add(key, &v)
+		}
+	}
+	for _, key := range tokenKeys {
+		p, ok := metric.RuleTokenCounter.Get(key)
+		if !ok || p == nil {
+			continue
+		}
+		was, is := budget(oldRule, key), budget(newRule, key)
+		consumed := was - atomic.LoadInt64(p)
+		if consumed < 0 {
+			consumed = 0
+		}
+		left := is - consumed
+		if left < 0 {
+			left = 0
+		}
+		copied.RuleTokenCounter.Add(key, &left)
+	}
+	return copied
+}
+
+// cacheSizeOf is the capacity newBaseTrafficShapingController gives the caches of a QPS rule.
+func cacheSizeOf(r *Rule) int {
+	size := 0
+	if r.ParamsMaxCapacity > 0 {
+		size = int(r.ParamsMaxCapacity)
+	} else if r.DurationInSec == 0 {
+		size = ParamsMaxCapacity
+	} else {
+		size = int(math.Min(float64(ParamsMaxCapacity), float64(ParamsCapacityBase*r.DurationInSec)))
+	}
+	if size <= 0 {
+		size = ParamsMaxCapacity
+	}
+	return size
 }
 
 func IsValidRule(rule *Rule) error {
